@@ -40,6 +40,27 @@ static std::unique_ptr<SimModel> buildModel(int m) {
         HuntCrossleyForce hc(M->forces, M->contacts, set);
         hc.setBodyParameters(ContactSurfaceIndex(0), 1e4, 0.3, 0.8, 0.5, 0.1);
         hc.setBodyParameters(ContactSurfaceIndex(1), 1e4, 0.3, 0.8, 0.5, 0.1);
+    } else if (m == 4 || m == 5) {   // planar 4-pin chain closed by a Rod; m==4: first pin locked (prescribed u + constraints), m==5: nothing locked (same nu)
+        Force::Gravity(M->forces, M->matter, UnitVec3(0, -1, 0), 9.8);
+        const Real len = m == 4 ? 1.0 : 0.7; const Real mass = m == 4 ? 1.0 : 2.5;
+        Body::Rigid link(MassProperties(mass, Vec3(0), Inertia(mass * 0.1)));
+        MobilizedBody parent = M->matter.Ground(); MobilizedBody::Pin pins[4];
+        const Real ang[4] = {-0.4, 0.9, -1.1, 0.7};
+        for (int i = 0; i < 4; ++i) { pins[i] = MobilizedBody::Pin(parent, Transform(Vec3(i == 0 ? 0 : len, 0, 0)), link, Transform(Vec3(0))); pins[i].setDefaultAngle(ang[i]); parent = pins[i]; }
+        if (m == 4) pins[0].lockByDefault(Motion::Position);
+        // closing rod from the tip of the last link to a Ground anchor (tip position from the zig-zag default angles)
+        Real a = 0; Vec3 tip(0);
+        for (int i = 0; i < 4; ++i) { a += ang[i]; if (i > 0) tip += Vec3(0); tip += Vec3(std::cos(a) * len, std::sin(a) * len, 0) * (i < 3 ? 1 : 1); }
+        const Vec3 anchor = tip + Vec3(m == 4 ? 0.8 : 0.5, m == 4 ? 0.4 : 0.25, 0);
+        Constraint::Rod(M->matter.updGround(), anchor, pins[3], Vec3(len, 0, 0), (m == 4 ? 0.9 : 0.6));
+    } else if (m == 6 || m == 7) {   // clouds of 4 spheres in one contact set (sphere/sphere broad phase): m==6 spread about x=y, m==7 stretched along y
+        ContactSetIndex set = M->contacts.createContactSet();
+        HuntCrossleyForce hc(M->forces, M->contacts, set);
+        for (int i = 0; i < 4; ++i) {
+            MobilizedBody::Free b(M->matter.Ground(), Transform(), Body::Rigid(MassProperties(1.0, Vec3(0), Inertia(0.1))), Transform());
+            M->contacts.addBody(set, b, ContactGeometry::Sphere(0.3), Transform());
+            hc.setBodyParameters(ContactSurfaceIndex(i), 1e4, 0.2, 0.5, 0.3, 0.1);
+        }
     } else {                 // mesh on half space (ElasticFoundation; exercises the collision-algorithm registry and OBB tree)
         Force::Gravity(M->forces, M->matter, UnitVec3(0, -1, 0), 9.81);
         ContactSetIndex set = M->contacts.createContactSet();
@@ -57,6 +78,15 @@ static State initialState(SimModel& M, int m) {
     M.sys.realizeModel(s);
     if (m == 0) { s.updQ()[0] = 0.4; s.updQ()[1] = -0.3; s.updQ()[2] = 0.6; s.updU()[0] = 0.5; }
     else if (m == 1) { s.updU()[0] = 0.3; s.updU()[3] = -0.2; }
+    else if (m == 4 || m == 5) { s.updU()[1] = 0.6; s.updU()[2] = -0.3; }
+    else if (m == 6 || m == 7) {
+        for (int i = 0; i < 4; ++i) {   // Free: q = quat(4) + pos(3) per body; neighbours overlap by 0.05
+            static const Vec3 cloudXY[4] = {Vec3(0, 0, 0), Vec3(0.55, 0.12, 0.02), Vec3(0.25, 0.60, -0.03), Vec3(0.80, 0.55, 0.01)};   // x-order 0,2,1,3 differs from y-order 0,1,3,2; body 1 touches 0,2,3
+            Vec3 p = m == 6 ? cloudXY[i] : Vec3(0.05 * (i % 2), 0.55 * i, 0.01 * i);   // centre distances 0.567 / 0.552 < 2r = 0.6: neighbours touch; cloud 6 is spread slightly more along x than y, cloud 7 along y only
+            for (int k = 0; k < 3; ++k) s.updQ()[7 * i + 4 + k] = p[k];
+            s.updU()[6 * i + 3] = 0.2 * (i - 1.5); s.updU()[6 * i + 4] = -0.1 * i;
+        }
+    }
     else { s.updQ()[5] = 0.25; s.updU()[0] = 1.0; s.updU()[3] = 0.4; s.updU()[4] = -0.5; }   // Free: q = quat(4) + pos(3); start slightly above the plane
     return s;
 }
@@ -81,7 +111,7 @@ struct SimRun {
     SimRun(int model, int integ, SimModel* shared = nullptr) : model(model), integ(integ) {
         if (!shared) M = buildModel(model);
         SimModel& mm = shared ? *shared : *M;
-        if (model == 1) { State s = initialState(mm, model); mm.sys.project(s, 1e-10); I.reset(makeIntegrator(integ, mm.sys)); I->initialize(s); }
+        if (model == 1 || model == 4 || model == 5) { State s = initialState(mm, model); mm.sys.realize(s, Stage::Time); mm.sys.prescribe(s); mm.sys.project(s, 1e-8); I.reset(makeIntegrator(integ, mm.sys)); I->initialize(s); }
         else { I.reset(makeIntegrator(integ, mm.sys)); I->initialize(initialState(mm, model)); }
         appendState(out, I->getState());
     }
@@ -152,16 +182,17 @@ static Bytes actContactQuery() {     // one Dynamics realization of the mesh mod
 }
 
 // ---------------------------------------------------------------- activity alphabet
-static const int NACT = 10;
+static const int NACT = 14;
 static const char* actName(int a) {
-    static const char* n[NACT] = {"sim(chain,RKM)", "sim(loop,CPodes)", "sim(ball,Verlet)", "sim(mesh,SEE2)", "sim(chain,CPodes)", "splineGCV", "LBFGSB", "CMAES(seed42)", "polyRoots", "meshContactQuery"};
+    static const char* n[NACT] = {"sim(chain,RKM)", "sim(loop,CPodes)", "sim(ball,Verlet)", "sim(mesh,SEE2)", "sim(chain,CPodes)", "splineGCV", "LBFGSB", "CMAES(seed42)", "polyRoots", "meshContactQuery", "sim(lockedLoop,RKM)", "sim(freeLoop,RKM)", "sim(sphereCloudXY,RKM)", "sim(sphereCloudY,RKM)"};
     return n[a];
 }
 static Bytes runActivity(int a) {
     auto sim = [](int m, int i) { SimRun r(m, i); while (!r.done()) r.advance(); return r.out; };
     switch (a) {
         case 0: return sim(0, 0); case 1: return sim(1, 1); case 2: return sim(2, 2); case 3: return sim(3, 3); case 4: return sim(0, 1);
-        case 5: return actSpline(); case 6: return actLBFGSB(); case 7: return actCMAES(); case 8: return actRoots(); default: return actContactQuery();
+        case 5: return actSpline(); case 6: return actLBFGSB(); case 7: return actCMAES(); case 8: return actRoots(); case 9: return actContactQuery();
+        case 10: return sim(4, 0); case 11: return sim(5, 0); case 12: return sim(6, 0); default: return sim(7, 0);
     }
 }
 static uint64_t hashBytes(const Bytes& b) { return verif::fnv1a(b.data(), b.size() * sizeof(double), 1469598103934665603ULL ^ b.size()); }
@@ -235,12 +266,13 @@ int main(int argc, char** argv) {
 
     // (b) step-level interleavings of two simulations
     struct SimKind { int model, integ, act; };
-    const SimKind kinds[5] = {{0, 0, 0}, {1, 1, 1}, {2, 2, 2}, {3, 3, 3}, {0, 1, 4}};
+    const int NK = 9;
+    const SimKind kinds[NK] = {{0, 0, 0}, {1, 1, 1}, {2, 2, 2}, {3, 3, 3}, {0, 1, 4}, {4, 0, 10}, {5, 0, 11}, {6, 0, 12}, {7, 0, 13}};
     std::vector<std::vector<int>> patterns;      // which sim advances at each of the 6 slots
     for (int mask = 0; mask < 64; ++mask) if (__builtin_popcount(mask) == 3) { std::vector<int> p; for (int k = 0; k < 6; ++k) p.push_back((mask >> k) & 1); patterns.push_back(p); }
     struct IL { int a, b, pat; };
     std::vector<IL> ils;
-    for (int a = 0; a < 5; ++a) for (int b = 0; b < 5; ++b) for (int p = 0; p < (int)patterns.size(); ++p) ils.push_back({a, b, p});
+    for (int a = 0; a < NK; ++a) for (int b = 0; b < NK; ++b) for (int p = 0; p < (int)patterns.size(); ++p) { if (!th && (a >= 5 || b >= 5) && p % 4 != 0) continue; ils.push_back({a, b, p}); }
     run.parallel("interleavings", (int64_t)ils.size(), [&](int64_t i) {
         IL il = ils[i];
         std::vector<Bytes> got;
@@ -258,8 +290,8 @@ int main(int argc, char** argv) {
     });
 
     // (c) repeat in place: same System object, new integrator, run twice (and once after another model ran)
-    run.parallel("repeat-in-place", 5 * 5, [&](int64_t i) {
-        int a = (int)(i % 5), other = (int)(i / 5);
+    run.parallel("repeat-in-place", NK * NK, [&](int64_t i) {
+        int a = (int)(i % NK), other = (int)(i / NK);
         std::vector<Bytes> got;
         bool ok = inFreshProcess([&] {
             auto M = buildModel(kinds[a].model);
